@@ -28,8 +28,36 @@ pub fn crashsafe<T: Q>(q: &T) -> bool {
     ok
 }
 
-fn probe<T: Q>(p: *const ()) -> bool {
+/// The two tables and the length counter agree with each other, whatever the map holds.
+/// This is what the unchecked accesses rely on while the predicate of `retain*` runs: the
+/// map is in the middle of its own `retain` then (after a caught panic it holds *fewer*
+/// entries than the tables; every map access of the crate is a checked one).
+pub fn tabsafe<T: Q>(q: &T) -> bool {
+    let l = q.s_heap_len();
+    let mut ok = q.s_qp_len() == l && q.s_size() == l;
+    let mut pos = 0;
+    while pos < l {
+        match q.s_heap(pos) {
+            Some(slot) => ok &= slot < l && q.s_qp(slot) == Some(pos),
+            None => ok = false,
+        }
+        pos += 1;
+    }
+    ok
+}
+
+fn probe<T: Q>(p: *const (), _kind: u8) -> bool {
     crashsafe::<T>(unsafe { &*(p as *const T) })
+}
+
+/// probe used by the `retain*` harness for the comparisons of the final rebuild; the
+/// predicate probes for itself (see `crash_retain`)
+fn probe_retain<T: Q>(p: *const (), kind: u8) -> bool {
+    if kind == hook::CB_CLOSURE {
+        true
+    } else {
+        crashsafe::<T>(unsafe { &*(p as *const T) })
+    }
 }
 
 fn arm<T: Q>(q: &T, mask: u8) {
@@ -41,6 +69,7 @@ fn arm<T: Q>(q: &T, mask: u8) {
         hook::PROBED = false;
         hook::PROBE_OK = true;
         hook::PROBE_Q = q as *const T as *const ();
+        hook::PROBE_Q2 = core::ptr::null();
         hook::PROBE_FN = Some(probe::<T>);
         hook::MASK = mask;
         hook::MODE = hook::MODE_CRASH;
@@ -214,4 +243,137 @@ fn run_op<T: Q>(q: &mut T, op: u8, k: u8, p: u8, verdict: bool) {
             drop(it);
         }
     }
+}
+
+// ------------------------------------------------------------------------------------
+// crash points inside the bulk operations: the iterator feeding `extend`, the predicate of
+// `retain*`, `Eq`/`Hash` of the items moved by `append`, and the comparisons of the
+// rebuild that ends each of them
+// ------------------------------------------------------------------------------------
+fn finish<T: Q>(q: &T, what_ok: bool) {
+    let (probed, ok) = unsafe { (hook::PROBED, hook::PROBE_OK) };
+    hook::stop();
+    assert!(
+        !probed || ok,
+        "CRASH: tables are mutually consistent at every user callback (a caught panic there leaves a safe queue)"
+    );
+    assert!(what_ok && crashsafe(q), "CRASH: tables are mutually consistent at normal return");
+    cover!(probed, "a callback was reached at the chosen index");
+    cover!(true, "reach: end of harness");
+}
+
+#[cfg(not(kani))]
+fn native_bulk<T: Q, F: FnOnce(&mut T)>(q: &mut T, what: &str, f: F) -> bool {
+    if let Some(cont) = native_cont() {
+        unsafe {
+            hook::MODE = hook::MODE_PANIC;
+        }
+        let r = std::panic::catch_unwind(std::panic::AssertUnwindSafe(|| f(q)));
+        hook::stop();
+        println!("crash replay: {} (a panic was {}caught); continuation {}", what, if r.is_err() { "" } else { "NOT " }, cont);
+        continuation(q, cont);
+        println!("crash replay: continuation {} returned normally", cont);
+        return true;
+    }
+    f(q);
+    false
+}
+
+#[cfg(kani)]
+fn native_bulk<T: Q, F: FnOnce(&mut T)>(q: &mut T, _what: &str, f: F) -> bool {
+    f(q);
+    false
+}
+
+/// `extend` with a feed of `M` pairs (keys `SEQ`, concrete; priorities symbolic); the
+/// size_hint class selects the strategy (push one by one / insert all and rebuild)
+pub fn crash_extend<T: Q, const N: usize, const M: usize, const SEQ: u32>(tables: Tables, class: u8) {
+    let (mut q, _gh) = crate::gen::state_keys::<T, N>(Pre::CrashSafe, tables, crate::gen::iota::<N>());
+    let f = crate::bulk::feed::<M>(SEQ, class);
+    arm(&q, ALL_CB);
+    if native_bulk(&mut q, "extend", |q| q.extend_q(f)) {
+        return;
+    }
+    finish(&q, true);
+}
+
+/// `retain` / `retain_mut` with the concrete verdict pattern `PAT`. Inside the predicate the
+/// map is in the middle of its own `retain` (the model's `Vec::retain_mut` reports length 0
+/// there, the real one leaves fewer entries behind after a caught panic), so the probe at a
+/// predicate call is TABSAFE: the tables and the counter agree with each other. The predicate
+/// probes through a typed pointer it captures. (With the type-erased pointer in the static,
+/// CBMC reports a spurious double free when *every* element is removed -- it does not
+/// reproduce natively and not with the typed pointer; when nothing survives the final rebuild
+/// makes no comparison, so the static is simply not armed for those patterns.)
+pub fn crash_retain<T: Q, const N: usize, const PAT: u32>(tables: Tables, mutable: bool) {
+    let (mut q, _gh) = state::<T, N>(Pre::CrashSafe, tables);
+    let w = sym::u8();
+    arm(&q, ALL_CB);
+    let survivors = PAT & ((1u32 << N) - 1) != 0;
+    unsafe {
+        if survivors {
+            hook::PROBE_FN = Some(probe_retain::<T>);
+        } else {
+            hook::PROBE_FN = None;
+            hook::PROBE_Q = core::ptr::null();
+        }
+    }
+    let qp = &q as *const T;
+    let mut idx = 0u32;
+    let mut pred = |p: &mut Pr| {
+        hook::user_callback(hook::CB_CLOSURE);
+        unsafe {
+            if hook::MODE == hook::MODE_CRASH && hook::CALLS == hook::CRASH_AT {
+                hook::PROBE_OK &= tabsafe::<T>(&*qp);
+            }
+        }
+        if mutable {
+            p.0 = w;
+        }
+        let keep = PAT & (1u32 << (idx & 31)) != 0;
+        idx += 1;
+        keep
+    };
+    let done = native_bulk(&mut q, "retain", |q| {
+        if mutable {
+            q.retain_mut(|_, p| pred(p))
+        } else {
+            q.retain(|_, p| {
+                let mut c = *p;
+                pred(&mut c)
+            })
+        }
+    });
+    if done {
+        return;
+    }
+    finish(&q, true);
+}
+
+/// `append` of a queue of `M` elements with the keys `SEQ`
+pub fn crash_append<T: Q, const N: usize, const M: usize, const SEQ: u32>(tables: Tables) {
+    let (mut q, _gh) = crate::gen::state_keys::<T, N>(Pre::CrashSafe, tables, crate::gen::iota::<N>());
+    let mut okeys = [0u8; M];
+    let mut j = 0;
+    while j < M {
+        okeys[j] = crate::bulk::key_of(SEQ, j);
+        j += 1;
+    }
+    let (mut other, _ogh) = crate::gen::state_keys::<T, M>(Pre::CrashSafe, tables, okeys);
+    arm(&q, ALL_CB);
+    unsafe {
+        hook::PROBE_Q2 = &other as *const T as *const ();
+    }
+    let optr = &mut other as *mut T;
+    let done = native_bulk(&mut q, "append", |q| q.append(unsafe { &mut *optr }));
+    if done {
+        // the other queue is part of "every later use"
+        other.pop_hi();
+        other.push(Item::new(11, 0), Pr(7));
+        other.pop_hi();
+        drop(other);
+        return;
+    }
+    let other_ok = crashsafe(&other);
+    finish(&q, other_ok);
 }
